@@ -168,16 +168,19 @@ static bool tcp_connect_one(Device *dev, struct addrinfo *addr)
     opt = 1;
     if (setsockopt(dev->fd, SOL_SOCKET, SO_REUSEADDR, &opt, sizeof(opt)) < 0) {
         close(dev->fd);
+        dev->fd = NO_FD;
         return false;
     }
     nonblock_set(dev->fd);
 
-    if (connect(dev->fd, addr->ai_addr, addr->ai_addrlen) >= 0)
-        return tcp_finish_connect_one(dev);
-    else if (errno == EINPROGRESS)
+    if (connect(dev->fd, addr->ai_addr, addr->ai_addrlen) >= 0) {
+        if (tcp_finish_connect_one(dev))
+            return true;
+    } else if (errno == EINPROGRESS)
         return true;
 
     close(dev->fd);
+    dev->fd = NO_FD;
     return false;
 }
 
@@ -195,6 +198,8 @@ bool tcp_finish_connect(Device * dev)
     tcp = (TcpDev *)dev->data;
 
     if (!tcp_finish_connect_one(dev)) {
+        close(dev->fd);
+        dev->fd = NO_FD;
         tcp->cur = tcp->cur->ai_next;
         while (tcp->cur && !tcp_connect_one(dev, tcp->cur))
             tcp->cur = tcp->cur->ai_next;
@@ -230,6 +235,7 @@ bool tcp_connect(Device * dev)
     tcp = (TcpDev *)dev->data;
 
     dev->connect_state = DEV_CONNECTING;
+    tcp->cur = tcp->addrs;          /* each attempt starts over at the first address */
     while (tcp->cur && !tcp_connect_one(dev, tcp->cur))
         tcp->cur = tcp->cur->ai_next;
     if (tcp->cur == NULL)
